@@ -38,7 +38,7 @@
 
 struct kind { int op, fin, mask; long len; };
 static struct kind kinds[1024]; static int nkinds;
-static int p_frames, p_cut_all, p_bytewise, p_appclose, p_big;
+static int p_frames, p_cut_all, p_bytewise, p_appclose, p_big, p_dry;
 
 static int parse_list(const char *s, long *out, int max)
 {
@@ -64,6 +64,7 @@ static void init(void)
 	p_bytewise = mc_param("bytewise", 1);
 	p_appclose = mc_param("appclose", 0);
 	p_big = !strcmp(mc_param_str("special", ""), "big");
+	p_dry = mc_param("dry", 0);        /* development aid: enumerate the space without running sessions */
 	nops = parse_list(mc_param_str("ops", "0,1,2,8,9,10,3,11"), ops, 16);
 	nlens = parse_list(mc_param_str("lens", "0,1,125,126,O"), lens, 16);
 	nkinds = 0;
@@ -214,6 +215,10 @@ static void run_stream(const struct kind *const *ks, int nf, struct stream *st, 
 	struct ws_sess s; struct rfc6455_dec ref;
 	size_t pos = 0, cutpos[64]; int c, nseg = 0, ncut = 0; uint64_t h;
 	char what[400]; int wl = 0, f;
+	if (p_dry) {
+		for (c = 0; c < st->ncand; c++) if (mode == 0) (void)mc_choose(2, 1, "cut");
+		return;
+	}
 	if (ws_sess_open(&s, "C31", 0) < 0) { ws_sess_close(&s); return; }
 	s.close_on_nth = (size_t)p_appclose;
 	if (!ws_sess_handshake(&s, "dGhlIHNhbXBsZSBub25jZQ==", 24)) {
